@@ -271,6 +271,7 @@ func (w *World) Apply(st Step) (problem string, inconclusive bool) {
 		w.touch(x)
 		w.modelPublish(w.mp(x), h.Topic, h.Payload+strings.Repeat("x", h.Pad), h.Retain, x.Node)
 		x.K.Send(tail)
+		x.K.EndPartial()
 		if !settle() {
 			return problem, false
 		}
@@ -302,6 +303,7 @@ func (w *World) Apply(st Step) (problem string, inconclusive bool) {
 			k = len(pkt) - 1
 		}
 		st.Split = k
+		s.K.BeginPartial()
 		s.K.Send(pkt[:k])
 		s.tail, s.tailStep, s.tailID = pkt[k:], st, id
 		if !settle() {
@@ -862,6 +864,12 @@ func (w *World) Apply(st Step) (problem string, inconclusive bool) {
 			return
 		}
 	case "sweep":
+		// half-written packets are completed first: their senders hold their acknowledgements back
+		for _, x := range w.S {
+			if p, ok := flushTail(x); p != "" || !ok {
+				return p, inconclusive
+			}
+		}
 		for _, n := range w.Cl.Nodes {
 			if !n.Down {
 				n.Acks.SweepAll()
